@@ -18,6 +18,22 @@ Theorem C02_side_consts :
   /\ (Consts.LOCALS_MAX * Consts.FRAMES_MAX = Consts.STACK_MAX)%N.
 Proof. vm_compute; repeat split; reflexivity. Qed.
 
+(* --- the end-of-iteration guards of object.rs: [>=] where the container can shrink --- *)
+Theorem C02_side_iter_guards : iter_guards_ok src_iter_guards = true.
+Proof. vm_compute; reflexivity. Qed.
+Theorem C02_iter_guard_ge_total : forall site cursor len,
+    is_panic (indexed_iter_next site CmpGe cursor len) = false.
+Proof. exact indexed_iter_next_ge_total. Qed.
+Theorem C02_iter_guard_ge_sentinel : forall site cursor len, (len <= cursor)%N ->
+    indexed_iter_next site CmpGe cursor len = NOk RKStop.
+Proof. exact indexed_iter_next_ge_sentinel. Qed.
+Theorem C02_iter_guard_eq_bounded : forall site cursor len, (cursor <= len)%N ->
+    is_panic (indexed_iter_next site CmpEq cursor len) = false.
+Proof. exact indexed_iter_next_eq_bounded. Qed.
+Theorem C02_iter_guard_eq_refuted : exists cursor len,
+    (len < cursor)%N /\ indexed_iter_next "elements[current]" CmpEq cursor len = NPanic "elements[current]".
+Proof. exact indexed_iter_next_eq_refuted. Qed.
+
 (* --- what the rows mean for the model --- *)
 Theorem C02_row_arity_checked : forall n, is_core_native n = true ->
     arity_src n = Show.show_nat (expected_args n) -> arity_first_src n = true ->
@@ -123,6 +139,11 @@ Proof. exact stack_bounded_refuted. Qed.
 
 Print Assumptions C02_side_native_rows.
 Print Assumptions C02_side_consts.
+Print Assumptions C02_side_iter_guards.
+Print Assumptions C02_iter_guard_ge_total.
+Print Assumptions C02_iter_guard_ge_sentinel.
+Print Assumptions C02_iter_guard_eq_bounded.
+Print Assumptions C02_iter_guard_eq_refuted.
 Print Assumptions C02_row_arity_checked.
 Print Assumptions C02_row_key_checked.
 Print Assumptions C02_natives_total.
